@@ -78,6 +78,7 @@ def check(an, rep, tier):
                                                     'cols') else 'unknown'),
                             '' if got == 'rows' else 'right factor state %s'
                             % got)
+    _rel_norm(prog, rep)
     F.check_selectors(prog, rep)
     F.check_rank_formula(prog, rep, 'svd.matrix_svd')
     F.check_rank_formula(prog, rep, 'svd.matrix_skeleton')
@@ -88,5 +89,64 @@ def check(an, rep, tier):
     rep.floor('O-summary', 5, 'factor summaries')
     rep.floor('O-gram', 3, 'selectors')
     rep.floor('F-rank', 2, 'rank formulas')
+    rep.floor('P-rel-norm', 1, 'relative tail measure')
     rep.floor('S-ret', 4, 'results')
     rep.floor('S-reshape', 3, 'unfolding reshapes')
+
+
+def _rel_norm(prog, rep):
+    """rel=True measures the tail energy relative to the LARGEST singular
+    value: every division executed only under ``rel`` must divide by element 0
+    (or the max) of the singular-value vector.  Any other divisor is a
+    violation; no such division at all means the anchor vanished (floor)."""
+    from .. import paths
+    fsk = prog.func('svd.matrix_skeleton')
+    # the name(s) bound to the singular values of the SVD call
+    svals = set()
+    for node in ast.walk(fsk.node):
+        if isinstance(node, ast.Assign) and isinstance(node.value, ast.Call) \
+                and (prog.dotted(node.value.func) or '').endswith('linalg.svd') \
+                and isinstance(node.targets[0], ast.Tuple) \
+                and len(node.targets[0].elts) == 3 \
+                and isinstance(node.targets[0].elts[1], ast.Name):
+            svals.add(node.targets[0].elts[1].id)
+
+    def is_largest(den):
+        if isinstance(den, ast.Subscript) and isinstance(den.value, ast.Name) \
+                and den.value.id in svals and \
+                isinstance(den.slice, ast.Constant) and den.slice.value == 0:
+            return True
+        if isinstance(den, ast.Call):
+            f = prog.dotted(den.func) or ''
+            if f in ('numpy.max', 'numpy.amax', 'max') and den.args and \
+                    isinstance(den.args[0], ast.Name) and \
+                    den.args[0].id in svals:
+                return True
+            if isinstance(den.func, ast.Attribute) and \
+                    den.func.attr == 'max' and \
+                    isinstance(den.func.value, ast.Name) and \
+                    den.func.value.id in svals and not den.args:
+                return True
+        return False
+
+    for node in ast.walk(fsk.node):
+        den = None
+        if isinstance(node, ast.BinOp) and isinstance(node.op, ast.Div):
+            den = node.right
+        elif isinstance(node, ast.AugAssign) and isinstance(node.op, ast.Div):
+            den = node.value
+        if den is None:
+            continue
+        gs = paths.guards_of(fsk.node, node)
+        under_rel = any(pol and isinstance(t, ast.Name) and t.id == 'rel'
+                        for t, pol in gs)
+        if not under_rel:
+            continue
+        good = is_largest(den)
+        rep.add('P-rel-norm', 'svd.matrix_skeleton',
+                'rel=True: singular values divided by the largest one',
+                'ok' if good else 'violation',
+                '' if good else 'with rel=True the tail energy must be '
+                'measured relative to the largest singular value; the divisor '
+                'here is %s' % ast.unparse(den),
+                line=node.lineno, file=fsk.module.path)
